@@ -120,6 +120,27 @@ def find_key(type_, zx, zy, budget):
     return None
 
 
+_POOL = {}
+
+
+def find_edge_key(type_, pos, val, budget):
+    """A key whose X / Y coordinate (fixed width) has first / last byte == val; found in a pool of generated keys."""
+    w = WIDTH[type_]
+    pool = _POOL.setdefault(type_, {})
+    if (pos, val) in pool:
+        return pool[(pos, val)]
+    curve = CURVES[type_]()
+    for _ in range(budget):
+        k = ec.generate_private_key(curve)
+        n = k.public_key().public_numbers()
+        xb, yb = n.x.to_bytes(w, "big"), n.y.to_bytes(w, "big")
+        for p_, v_ in (("x0", xb[0]), ("y0", yb[0]), ("xn", xb[-1]), ("yn", yb[-1])):
+            pool.setdefault((p_, v_), k)
+        if (pos, val) in pool:
+            return pool[(pos, val)]
+    return None
+
+
 TOK = re.compile(r"0x([0-9a-fA-F]{1,2})\b")
 
 
@@ -166,7 +187,7 @@ def run_convert(ctx, tr, d, s, k, via, key):
     tr.ev("Convert", type=s["type"], x=x, y=y, raw=raw,
           c={"tokens": tokens, "lenvar": lenvar, "lensizeof": lensizeof, "nolength": s["nolength"]})
     ctx.count("evaluations")
-    ctx.nontriv(("conv", s["type"], s["zx"], s["zy"], s["cols"], s["indent"], s["tab"], s["nolength"], s["noconst"], via))
+    ctx.nontriv(("conv", s["type"], s["zx"], s["zy"], s["cols"], s["indent"], s["tab"], s["nolength"], s["noconst"], via, str(s.get("edge"))))
 
 
 def run(ctx: core.Check):
@@ -180,6 +201,7 @@ def run(ctx: core.Check):
     tr = toolrun.Trace()
     keys_s = [s for s in scns if s["kind"] == "keys"]
     conv_s = [s for s in scns if s["kind"] == "convert"]
+    edge_s = [s for s in scns if s["kind"] == "convertedge"]
     ctx.note(f"Use B/C: {len(keys_s)} keys scenarios")
     for k, s in enumerate(keys_s):
         run_keys(ctx, tr, d, s, k, "lib")
@@ -207,6 +229,17 @@ def run(ctx: core.Check):
             continue
         lead += (s["zx"] + s["zy"]) > 0
         run_convert(ctx, tr, d, s, k, "cli" if k % 25 == 0 else "lib", key)
+    # coordinates whose first / last byte has a value that serialisation code may treat specially
+    base_e = {"zx": -1, "zy": -1, "cols": 8, "indent": 4, "tab": False, "nolength": False, "noconst": False}
+    found_e = 0
+    for k, s in enumerate(edge_s):
+        key = find_edge_key(s["type"], s["pos"], s["val"], 6000 if ctx.quick else 60000)
+        if key is None:
+            skipped += 1
+            continue
+        found_e += 1
+        run_convert(ctx, tr, d, dict(base_e, kind="convert", type=s["type"], edge=[s["pos"], s["val"]]), 50000 + k, "lib", key)
+    ctx.cov["convert_runs_with_edge_byte_coordinate"] = found_e
     ctx.cov["convert_scenarios_without_key_found_in_budget"] = skipped
     ctx.cov["convert_runs_with_leading_zero_coordinate"] = lead
     ctx.sample({"scenario": {k2: v for k2, v in tr.scn[tr.tid].items() if k2 != "pem"}, "event": tr.events[-1]})
